@@ -693,6 +693,11 @@ def State.postReceive (s : State) (now : Int) (round : Nat) : R :=
       if p.chain.isEmpty then (s, [])
       else
         let s1 := { s with round := round }
+        -- QUALITY cut short: conclude it with the votes received so far
+        let s1 := if s1.phase == .quality then
+            let q := s1.quality.longestPrefixWithQuorum s1.input
+            (({ s1 with proposal := q }).addCandidatePrefixes q).1
+          else s1
         let s2 := if p.just.phase == .prepare then
             { (s1.addCandidate p.chain).1 with proposal := p.chain } else s1
         s2.beginConverge now p.just
